@@ -78,6 +78,10 @@ impl PlaybackStateManager {
 		self.state = State::Stopped;
 	}
 
+	pub fn mark_as_paused(&mut self) {
+		self.state = State::Paused;
+	}
+
 	pub fn update(&mut self, dt: f64, info: &Info) -> ChangedPlaybackState {
 		let finished = self.volume_fade.update(dt, info);
 		match &mut self.state {
